@@ -62,7 +62,7 @@ PROPS = {
         "level_note": "Trusted: pyvc, the numpy model (npmodel.py: rank<=2 real arrays, paired fancy indexing, tile/reshape/T pattern), reals for floats. "
                       "Not covered: centered differences and complex step (complex arrays, norm), parallel evaluation, discipline-level wrappers, float rounding.",
         "design_ref": "DESIGN.md §4 C16",
-        "modules": ["contracts.c16_derivatives"],
+        "modules": ["contracts.c16_derivatives", "contracts.c16_approx"],
         "not_covered": ["centered_differences.py", "complex_step.py", "derivatives_approx.py", "parallel gradient", "float cancellation error"],
     },
     "C02": {
@@ -169,7 +169,7 @@ PROPS = {
                       "assumption, under which the order-sensitive sequential code is proved for every delivery order. Consequences for DOE / chains / "
                       "linearization / derivative approximation are not under contract yet.",
         "design_ref": "DESIGN.md §4 C13",
-        "modules": ["contracts.c13_parallel"],
+        "modules": ["contracts.c13_parallel", "contracts.c16_approx"],
         "assumptions": [
             "queue contract: every item put in a queue is delivered exactly once, to exactly one getter, in an arbitrary order; every started worker runs "
             "_execute_workers to completion (fairness/termination of the scheduler)",
@@ -220,7 +220,7 @@ PROPS = {
                       "networkx.edge_bfs/reverse_view; reach = reflexive-transitive closure (closure axioms). Not proved: requested endpoints of paths of length >= 1 "
                       "(needs the unfolding of reach), minimality of the selection, the request cache of MDOChain._compute_diff_in_outs, Jacobian accumulation.",
         "design_ref": "DESIGN.md §4 C09",
-        "modules": ["contracts.c09_chain_rule"],
+        "modules": ["contracts.c09_chain_rule", "contracts.c09_chains"],
         "assumptions": [
             "networkx.edge_bfs(G, source) enumerates exactly the edges whose tail is reachable from the source, each once; reverse_view(G) = same nodes, reversed edges with the same data",
             "reach = reflexive-transitive closure of the edge relation (closure axioms only)",
@@ -251,7 +251,7 @@ PROPS = {
                       "The check currently reports genuine violations on the pinned tree (BaseGrammar.__copy__ shares the required names with the original; rename_element drops a "
                       "None default; __delitem__/rename_element/restrict_to/update leave stale namespace entries) - see the report / known findings.",
         "design_ref": "DESIGN.md §4 C15",
-        "modules": ["contracts.c15_grammars"],
+        "modules": ["contracts.c15_grammars", "contracts.c15_json_grammar"],
         "assumptions": [
             "type objects and data values are opaque; py_isinstance(value, type) and py_is_type(x) are uninterpreted; class objects (dict, Mapping, ndarray) are distinct type objects; type(v) is a type v is an instance of",
             "collections.abc mixins of RequiredNames/Defaults/grammars are summarised from their CPython source over the classes' verified primitives (pyvc/plug_grammars.py)",
@@ -278,7 +278,7 @@ PROPS = {
         "level_note": "Instance dictionaries are modelled as a dict field; attribute values are opaque with recognisable kinds (Synchronized / Path / PurePath). "
                       "The whole-class question (is every non-picklable attribute excluded and rebuilt) is not a function contract and is not covered.",
         "design_ref": "DESIGN.md §4 C20",
-        "modules": ["contracts.c20_serialization"],
+        "modules": ["contracts.c20_serialization", "contracts.c20_state"],
         "assumptions": [
             "attribute stores on instances of the classes under contract go to the instance dictionary (no slots/descriptors)",
             "pickle calls __setstate__ on an instance created by cls.__new__ (empty dictionary)",
@@ -391,7 +391,8 @@ PROPS["C17"] = {
                   "same order; get_x_names_of_disc returns such a sub-list of the design variables (so every in-tree call site satisfies the precondition); "
                   "FunctionFromDiscipline evaluates its adapter on exactly the gathered components of its input names and scatters the adapter's gradient "
                   "to the columns of these variables (zeros elsewhere); the IDF consistency constraint is (y(x) - y_copy)/norm_factor component-wise with "
-                  "y_copy the coupling targets read from the design vector, hence zero exactly when y_copy = y(x) - outside the known finding below.",
+                  "y_copy the coupling targets read from the design vector, hence zero exactly when y_copy = y(x) - outside the known finding below; "
+                  "IDF._update_design_space raises unless every coupling is a design variable and leaves the design space unchanged.",
     "level_note": "Trusted: pyvc, numpy model (npmodel.py + plug_np_c17.py: builtin sum as a prefix-sum ghost function, empty/arange/copy), z3, reals for floats. "
                   "Known finding (reported, to be triaged): with normalize_constraints and a zero or infinite normalisation factor (coupling variable with equal "
                   "or infinite bounds - the default bounds) the consistency constraint is nan/inf or identically 0 although y_copy != y(x); region "
@@ -399,7 +400,7 @@ PROPS["C17"] = {
                   "Not covered: 'optimising any of them reaches the same optimum' (optimiser behaviour), total derivatives through the MDA (C07/C09), BiLevel.",
     "design_ref": "DESIGN.md §4 C17",
     "runtime": "contracts.rt_c17",
-    "modules": ["contracts.c17_formulations"],
+    "modules": ["contracts.c17_formulations", "contracts.c17_idf_norm"],
     "assumptions": [
         "facts about the recursive offset functions off/offm and the prefix sum psum_i used as axioms in the function contracts (off-monotone, offm-monotone, "
         "psum-bridge, consumed-is-offset) are proved by induction (base + step obligations) in the lemma contract OffsetLemmas",
@@ -414,8 +415,8 @@ PROPS["C17"] = {
     ],
     "not_covered": ["same optimum across formulations (optimiser behaviour)", "BiLevel", "sparse Jacobians",
                     "DisciplineAdapter (__create_discipline_input_data, _convert_jacobian_to_array: data converters / slices of the grammar)",
-                    "ConsistencyConstraint._jac_to_wrap (identity blocks; newaxis broadcasting)", "IDF._get_normalization_factor, IDF._update_design_space, "
-                    "MDF._remove_couplings_from_ds (variable-set facts)", "matrix-valued FunctionFromDiscipline Jacobians (unmask itself is proved for matrices)"],
+                    "ConsistencyConstraint._jac_to_wrap (identity blocks; newaxis broadcasting)", "IDF._get_normalization_factor, MDF._remove_couplings_from_ds / _remove_unused_variables (variable-set facts; "
+                    "IDF._update_design_space is proved)", "matrix-valued FunctionFromDiscipline Jacobians (unmask itself is proved for matrices)"],
 }
 
 _TODO = "not yet under contract in this build; see DESIGN.md §9 (build order) - no other technique is substituted"
